@@ -12,9 +12,9 @@ from .codec import prng_bytes
 from . import oracle as o
 from . import runner as R
 
-LEN = {'x25519': 64, 'sc_reduce': 64, 'fe_mix': 64, 'x25519_base': 32, 'fe_inv': 32, 'ed_sign': 96, 'ge_dsm': 96, 'poly1305': 130}
+LEN = {'x25519': 64, 'sc_reduce': 64, 'fe_mix': 64, 'x25519_base': 32, 'fe_inv': 32, 'ed_sign': 96, 'ge_dsm': 96, 'poly1305': 130, 'sc_muladd': 96}
 # kinds whose model is cheap enough to recompute whole blocks (every call), not only the sampled ones
-CHEAP = {'sc_reduce', 'fe_mix', 'poly1305'}
+CHEAP = {'sc_reduce', 'fe_mix', 'poly1305', 'sc_muladd'}
 M128 = (1 << 128) - 1
 P, L = o.P, o.L
 M255 = (1 << 255) - 1
@@ -65,6 +65,10 @@ def spec(kind, inp):
         return pk + sig + b'\x01'
     if kind == 'sc_reduce':
         return (int.from_bytes(inp[:64], 'little') % L).to_bytes(32, 'little')
+    if kind == 'sc_muladd':
+        a, b = int.from_bytes(inp[:32], 'little'), int.from_bytes(inp[32:64], 'little')
+        c = int.from_bytes(inp[64:96], 'little') & ((1 << 252) - 1)
+        return ((a * b + c) % L).to_bytes(32, 'little')
     if kind == 'poly1305':
         mlen = inp[32] % 97
         return o.poly1305(inp[:32], inp[34:34 + mlen])
